@@ -2021,6 +2021,11 @@ class Kernel:
             if pth and pth.startswith("self."):
                 self.recv_write(recv, pth[5:], proj(k), t, env, binds)
                 continue
+            if t in ("sink_str", "sink_bytes") and n in env and env[n] == t:
+                # an output the callee only appends to (it starts its own accumulator empty): what it wrote goes behind what the caller wrote
+                binds.append((mg(n), f"({mg(n)} ++ {proj(k)})", t, "let"))
+                self.let_log.append(n)
+                continue
             if n in self.spec.get("drop_results", []):
                 continue      # declared in the caller's spec: a value the callee returns UNCHANGED (e.g. the store the fuse generator only reads)
             if n in env and n in [r for r, _ in self.roots]:
@@ -3773,6 +3778,11 @@ P3_KERNELS = [
     dict(file="fasta/index.py", qual="FastaInfo.fai_row", lean="FastaInfo_fai_row", p2=True, params={"self": "fastainfo", "name": "str"}, returns="str"),
     dict(file="fasta/index.py", qual="FastaIndex.load_index", lean="FastaIndex_load_index", p2=True, text_lines={"idx": "fai_lines"},
          dict_roots={"self.index": ("dict", "str", "fastainfo")}, locals={"idx_dict": ("dict", "str", "fastainfo")}),
+    # the whole FASTA output (C03): one record per scaffold, through the translated write_scaffold
+    dict(file="fasta/stream.py", qual="FastaStream.write_assembly", lean="FastaStream_write_assembly", p2=True,
+         params={"assembly": "assembly", "self_index_get_gap_iter": ("fun", ["row", "bytes"], L("bytesio"), False),
+                 "self_index_get_sequence_iter": ("fun", ["row"], L("bytesio"), True)},
+         sinks={"self.out": "sink_bytes"}, attr_params={"self.line_length": "int", "self.gap_character": "bytes"}),
     # reversal (C14): new Fragment objects get fresh object ids from the counter
     dict(file="assembly/scaffold.py", qual="Scaffold.reverse", lean="Scaffold_reverse_imp", p2=True, oid_counter=True,
          params={"self": "scaffold"}, returns="scaffold", locals={"new": "scaffold"}),
@@ -3804,7 +3814,7 @@ IMP_KERNELS = [
          locals={"idx": O("int")}),
     dict(file="assembly/format.py", qual="format_agp", lean="format_agp_imp",
          params={"file": "sink_str"}, attr_params={"asm.header": L("str"), "asm.scaffolds": L("scaffold")}),
-    dict(file="fasta/stream.py", qual="FastaStream.write_scaffold", lean="FastaStream_write_scaffold",
+    dict(file="fasta/stream.py", qual="FastaStream.write_scaffold", lean="FastaStream_write_scaffold", km=True,
          params={"scaffold": "scaffold"}, sinks={"self.out": "sink_bytes"},
          attr_params={"self.line_length": "int", "self.gap_character": "bytes", "self.index": "opaque_obj"},
          opaque={"self_index.get_gap_iter": (["row", "bytes"], L("bytesio"), False), "self_index.get_sequence_iter": (["row"], L("bytesio"), True)}),
